@@ -8,6 +8,10 @@ the repetitive, field-by-field text derived from it:
                                                     merge_assoc / merge_compat (in lean/EV/Proofs/PsetMerge.lean)
   python3 tools/gen_pset_fields.py lean-driver   -> set/dump of every field (lean/EV/Driver/PsetDesc.lean)
   python3 tools/gen_pset_fields.py rust          -> set/dump of every field (harness/src/props/psetdesc.rs)
+  python3 tools/gen_pset_fields.py lean-wire     -> lean/EV/Model/PsetTables.lean (C07: the three wire tables in emission
+                                                    order: tag, kind, key validity, value codec, key order; record <-> slots)
+  python3 tools/gen_pset_fields.py lean-wire-proofs -> lean/EV/Proofs/PsetWireRec.lean (C07: Bounds + both directions of the
+                                                    record <-> slots conversion, per record)
 
 The outputs are checked in; this script is kept so that whoever extends the model (C07: wire format)
 can regenerate the per-field text after editing the table.  Kinds:
@@ -285,6 +289,318 @@ def rust(table, types, var, ty):
     o.append("}")
     return "\n".join(o)
 
+
+# ---------------------------------------------------------------------------------------------------
+# C07: the wire-format tables (lean/EV/Model/PsetTables.lean), in the EMISSION ORDER of `get_pairs`.
+# columns: field, tag kind (plain | pset | propAny | unkAny), Gen.PsetWire constant (type byte or
+# proprietary subtype), kind (opt | mand | optLast | map | keyList), key validity, value codec, key order
+C = {  # value codecs (Lean expressions over W : WirePrims)
+    "tx": "accept (txOk W)", "txout": "accept (txOutOk W)", "bytes": "cAny", "u32": "cLen 4", "u64": "cLen 8",
+    "u8": "cLen 1", "b32": "cLen 32", "keysource": "accept keySourceOk", "stack": "accept stackOk",
+    "height": "cHeight", "time": "cTime", "schnorr": "schnorrNorm", "scriptver": "accept scriptVerOk",
+    "taporigin": "accept tapOriginOk", "xonly": "accept (xonlyOk W)", "commitment": "accept (commitmentOk W)",
+    "generator": "accept (generatorOk W)", "rangeproof": "accept W.P.rangeproof", "surjproof": "accept W.P.surjproof",
+    "btctx": "accept W.btcTx", "tweak": "accept (tweakOk W)", "pk": "accept (pkOk W)", "taptree": "tapTreeNorm W",
+    "pre_ripemd160": "cPreimage W.ripemd160", "pre_sha256": "cPreimage W.sha256", "pre_hash160": "cPreimage W.hash160",
+    "pre_hash256": "cPreimage W.hash256", "count": "countNorm",
+}
+K = {  # key validity
+    "pk": "pkOk W", "h20": "fun k => k.length == 20", "h32": "fun k => k.length == 32", "tapsigkey": "tapSigKeyOk W",
+    "cb": "controlBlockOk W", "xonly": "xonlyOk W", "any": "fun _ => true", "xpub": "xpubOk W", "tweak": "tweakOk W",
+}
+WIRE_INPUT = [
+    ("non_witness_utxo", "plain", "psetInNonWitnessUtxo", "opt", None, "tx", None),
+    ("witness_utxo", "plain", "psetInWitnessUtxo", "opt", None, "txout", None),
+    ("partial_sigs", "plain", "psetInPartialSig", "map", "pk", "bytes", "pkLt"),
+    ("sighash_type", "plain", "psetInSighashType", "opt", None, "u32", None),
+    ("redeem_script", "plain", "psetInRedeemScript", "opt", None, "bytes", None),
+    ("witness_script", "plain", "psetInWitnessScript", "opt", None, "bytes", None),
+    ("bip32_derivation", "plain", "psetInBip32Derivation", "map", "pk", "keysource", "pkLt"),
+    ("final_script_sig", "plain", "psetInFinalScriptsig", "opt", None, "bytes", None),
+    ("final_script_witness", "plain", "psetInFinalScriptwitness", "opt", None, "stack", None),
+    ("ripemd160_preimages", "plain", "psetInRipemd160", "map", "h20", "pre_ripemd160", "bytesLt"),
+    ("sha256_preimages", "plain", "psetInSha256", "map", "h32", "pre_sha256", "bytesLt"),
+    ("hash160_preimages", "plain", "psetInHash160", "map", "h20", "pre_hash160", "bytesLt"),
+    ("hash256_preimages", "plain", "psetInHash256", "map", "h32", "pre_hash256", "bytesLt"),
+    ("previous_txid", "plain", "psetInPreviousTxid", "mand", None, "b32", None),
+    ("previous_output_index", "plain", "psetInOutputIndex", "mand", None, "u32", None),
+    ("sequence", "plain", "psetInSequence", "opt", None, "u32", None),
+    ("required_time_locktime", "plain", "psetInRequiredTimeLocktime", "opt", None, "time", None),
+    ("required_height_locktime", "plain", "psetInRequiredHeightLocktime", "opt", None, "height", None),
+    ("tap_key_sig", "plain", "psbtInTapKeySig", "opt", None, "schnorr", None),
+    ("tap_script_sigs", "plain", "psbtInTapScriptSig", "map", "tapsigkey", "schnorr", "bytesLt"),
+    ("tap_scripts", "plain", "psbtInTapLeafScript", "map", "cb", "scriptver", "bytesLt"),
+    ("tap_key_origins", "plain", "psbtInTapBip32Derivation", "map", "xonly", "taporigin", "bytesLt"),
+    ("tap_internal_key", "plain", "psbtInTapInternalKey", "opt", None, "xonly", None),
+    ("tap_merkle_root", "plain", "psbtInTapMerkleRoot", "opt", None, "b32", None),
+    ("issuance_value_amount", "pset", "psbtElementsInIssuanceValue", "opt", None, "u64", None),
+    ("issuance_value_comm", "pset", "psbtElementsInIssuanceValueCommitment", "opt", None, "commitment", None),
+    ("issuance_value_rangeproof", "pset", "psbtElementsInIssuanceValueRangeproof", "opt", None, "rangeproof", None),
+    ("issuance_keys_rangeproof", "pset", "psbtElementsInIssuanceKeysRangeproof", "opt", None, "rangeproof", None),
+    ("pegin_tx", "pset", "psbtElementsInPegInTx", "opt", None, "btctx", None),
+    ("pegin_txout_proof", "pset", "psbtElementsInPegInTxoutProof", "opt", None, "bytes", None),
+    ("pegin_genesis_hash", "pset", "psbtElementsInPegInGenesis", "opt", None, "b32", None),
+    ("pegin_claim_script", "pset", "psbtElementsInPegInClaimScript", "opt", None, "bytes", None),
+    ("pegin_value", "pset", "psbtElementsInPegInValue", "opt", None, "u64", None),
+    ("pegin_witness", "pset", "psbtElementsInPegInWitness", "opt", None, "stack", None),
+    ("issuance_inflation_keys", "pset", "psbtElementsInIssuanceInflationKeys", "opt", None, "u64", None),
+    ("issuance_inflation_keys_comm", "pset", "psbtElementsInIssuanceInflationKeysCommitment", "opt", None, "commitment", None),
+    ("issuance_blinding_nonce", "pset", "psbtElementsInIssuanceBlindingNonce", "opt", None, "tweak", None),
+    ("issuance_asset_entropy", "pset", "psbtElementsInIssuanceAssetEntropy", "opt", None, "b32", None),
+    ("in_utxo_rangeproof", "pset", "psbtElementsInUtxoRangeproof", "opt", None, "rangeproof", None),
+    ("in_issuance_blind_value_proof", "pset", "psbtElementsInIssuanceBlindValueProof", "opt", None, "rangeproof", None),
+    ("in_issuance_blind_inflation_keys_proof", "pset", "psbtElementsInIssuanceBlindInflationKeysProof", "opt", None, "rangeproof", None),
+    ("amount", "pset", "psbtElementsInExplicitValue", "opt", None, "u64", None),
+    ("blind_value_proof", "pset", "psbtElementsInValueProof", "opt", None, "rangeproof", None),
+    ("asset", "pset", "psbtElementsInExplicitAsset", "opt", None, "b32", None),
+    ("blind_asset_proof", "pset", "psbtElementsInAssetProof", "opt", None, "surjproof", None),
+    ("blinded_issuance", "pset", "psbtElementsInBlindedIssuance", "opt", None, "u8", None),
+    ("proprietary", "propAny", None, "map", "any", "bytes", "propKeyLt"),
+    ("unknown", "unkAny", None, "map", "any", "bytes", "bytesLt"),
+]
+WIRE_OUTPUT = [
+    ("redeem_script", "plain", "psetOutRedeemScript", "opt", None, "bytes", None),
+    ("witness_script", "plain", "psetOutWitnessScript", "opt", None, "bytes", None),
+    ("bip32_derivation", "plain", "psetOutBip32Derivation", "map", "pk", "keysource", "pkLt"),
+    ("tap_internal_key", "plain", "psbtOutTapInternalKey", "opt", None, "xonly", None),
+    ("tap_tree", "plain", "psbtOutTapTree", "opt", None, "taptree", None),
+    ("tap_key_origins", "plain", "psbtOutTapBip32Derivation", "map", "xonly", "taporigin", "bytesLt"),
+    ("amount", "plain", "psetOutAmount", "opt", None, "u64", None),
+    ("amount_comm", "pset", "psbtElementsOutValueCommitment", "opt", None, "commitment", None),
+    ("asset", "pset", "psbtElementsOutAsset", "opt", None, "b32", None),
+    ("asset_comm", "pset", "psbtElementsOutAssetCommitment", "opt", None, "generator", None),
+    ("script_pubkey", "plain", "psetOutScript", "mand", None, "bytes", None),
+    ("value_rangeproof", "pset", "psbtElementsOutValueRangeproof", "opt", None, "rangeproof", None),
+    ("asset_surjection_proof", "pset", "psbtElementsOutAssetSurjectionProof", "opt", None, "surjproof", None),
+    ("blinding_key", "pset", "psbtElementsOutBlindingPubkey", "opt", None, "pk", None),
+    ("ecdh_pubkey", "pset", "psbtElementsOutEcdhPubkey", "opt", None, "pk", None),
+    ("blinder_index", "pset", "psbtElementsOutBlinderIndex", "opt", None, "u32", None),
+    ("blind_value_proof", "pset", "psbtElementsOutBlindValueProof", "opt", None, "rangeproof", None),
+    ("blind_asset_proof", "pset", "psbtElementsOutBlindAssetProof", "opt", None, "surjproof", None),
+    ("proprietary", "propAny", None, "map", "any", "bytes", "propKeyLt"),
+    ("unknown", "unkAny", None, "map", "any", "bytes", "bytesLt"),
+]
+# the global record has its own conversion column: (… , record field, conversion)
+WIRE_GLOBAL = [
+    ("tx_version", "plain", "psetGlobalTxVersion", "mand", None, "u32", None),
+    ("fallback_locktime", "plain", "psetGlobalFallbackLocktime", "opt", None, "u32", None),
+    ("input_count", "plain", "psetGlobalInputCount", "mand", None, "count", None),
+    ("output_count", "plain", "psetGlobalOutputCount", "mand", None, "count", None),
+    ("tx_modifiable", "plain", "psetGlobalTxModifiable", "opt", None, "u8", None),
+    ("xpub", "plain", "psetGlobalXpub", "map", "xpub", "keysource", "xpubLt"),
+    ("version", "plain", "psetGlobalVersion", "mand", None, "u32", None),
+    ("scalars", "pset", "psbtElementsGlobalScalar", "keyList", "tweak", None, None),
+    ("elements_tx_modifiable_flag", "pset", "psbtElementsGlobalTxModifiable", "opt", None, "u8", None),
+    ("proprietary", "propAny", None, "map", "any", "bytes", "propKeyLt"),
+    ("unknown", "unkAny", None, "map", "any", "bytes", "bytesLt"),
+]
+GLOBAL_KINDS = {"tx_version": "n4", "fallback_locktime": "on4", "input_count": "cnt", "output_count": "cnt",
+                "tx_modifiable": "on1", "xpub": "xpub", "version": "n4", "scalars": "keys",
+                "elements_tx_modifiable_flag": "on1", "proprietary": "kv", "unknown": "kv"}
+
+def wire_field(row):
+    (n, tk, cn, kind, vk, codec, lt) = row
+    if tk == "plain": tag = "(.plain (u8n Gen.PsetWire.%s))" % cn
+    elif tk == "pset": tag = "(.pset (u8n Gen.PsetWire.%s))" % cn
+    elif tk == "propAny": tag = ".propAny"
+    else: tag = ".unkAny"
+    if kind in ("opt", "mand"): return 'fOpt "%s" %s (%s)' % (n, tag, C[codec])
+    if kind == "optLast": return 'fOptLast "%s" %s (%s)' % (n, tag, C[codec])
+    if kind == "map": return 'fMap "%s" %s (%s) (%s) %s' % (n, tag, K[vk], C[codec], lt)
+    if kind == "keyList": return 'fKeyList "%s" %s (%s)' % (n, tag, K[vk])
+    raise ValueError(kind)
+
+def wire_table(name, rows):
+    return "def %s (W : WirePrims) : List Field := [\n" % name + ",\n".join("  " + wire_field(r) for r in rows) + "]"
+
+def wire_shape(name, rows):
+    """(field, mode, number) as extracted from the Rust source by tools/extract.d/c07.py"""
+    def mode(r):
+        (n, tk, cn, kind, vk, codec, lt) = r
+        if tk == "propAny": return "propAny"
+        if tk == "unkAny": return "unkAny"
+        if kind == "mand": return "mandatory"
+        if tk == "pset": return "propkeyed" if kind == "keyList" else "prop"
+        return "keyed" if kind == "map" else "plain"
+    items = ['  ("%s", "%s", %s)' % (r[0], mode(r), ("Gen.PsetWire." + r[2]) if r[2] else "0") for r in rows]
+    return "def %s : List (String × String × Nat) := [\n" % name + ",\n".join(items) + "]"
+
+def wire_codec_names(name, rows):
+    """(field, key codec, value codec) by NAME, to be compared with the Rust types of `insert_pair`"""
+    items = ['  ("%s", "%s", "%s")' % (r[0], r[4] or "-", r[5] or "-") for r in rows]
+    return "def %s : List (String × String × String) := [\n" % name + ",\n".join(items) + "]"
+
+def to_slot(kind, c):
+    if kind == "ob": return "Slot.ofOpt x.%s" % c
+    if kind.startswith("on"): return "Slot.ofOptN %s x.%s" % (kind[2:], c)
+    if kind == "ol": return "Slot.ofOptL x.%s" % c
+    if kind == "kv": return "x.%s" % c
+    if kind == "b": return "Slot.ofOpt (some x.%s)" % c
+    if kind == "cnt": return "Slot.ofOpt (some (encVarint x.%s))" % c
+    if kind == "xpub": return "x.%s.map (fun kv => (kv.1, encKeySource kv.2))" % c
+    if kind == "keys": return "Slot.ofKeys x.%s" % c
+    if kind.startswith("n"): return "Slot.ofOptN %s (some x.%s)" % (kind[1:], c)
+    raise ValueError(kind)
+
+def of_slot(kind, v):
+    if kind == "ob": return "Slot.toOpt %s" % v
+    if kind.startswith("on"): return "Slot.toOptN %s" % v
+    if kind == "ol": return "Slot.toOptL %s" % v
+    if kind == "kv": return v
+    if kind == "b": return "(Slot.toOpt %s).getD []" % v
+    if kind == "cnt": return "countOf ((Slot.toOpt %s).getD [])" % v
+    if kind == "xpub": return "%s.map (fun kv => (kv.1, keySourceOf kv.2))" % v
+    if kind == "keys": return "Slot.toKeys %s" % v
+    if kind.startswith("n"): return "(Slot.toOptN %s).getD 0" % v
+    raise ValueError(kind)
+
+def wire_conv(sname, rows, kinds):
+    names = [r[0] for r in rows]
+    o = ["namespace %s" % sname,
+         "/-- the slots of the wire table, in table (= emission) order -/",
+         "def toSlots (x : %s) : List Slot := [" % sname]
+    o.append(",\n".join("  " + to_slot(kinds[n], camel(n)) for n in names) + "]")
+    vs = ["s%d" % i for i in range(len(names))]
+    o.append("/-- the record read back from the slots (`none` on a wrong number of slots) -/")
+    o.append("def ofSlots : List Slot → Option %s" % sname)
+    o.append("  | %s :: [] => some {" % " :: ".join(vs))
+    o.append(",\n".join("      %s := %s" % (camel(n), of_slot(kinds[n], v)) for n, v in zip(names, vs)) + " }")
+    o.append("  | _ => none")
+    o.append("end %s" % sname)
+    return "\n".join(o)
+
+def lean_wire():
+    kin = dict((n, k) for (n, k, m) in INPUT)
+    kout = dict((n, k) for (n, k, m) in OUTPUT)
+    out = ["/- GENERATED by `python3 tools/gen_pset_fields.py lean-wire` — do not edit by hand.",
+           "   The field tables of the three PSET maps in the emission order of `get_pairs`, and the conversion",
+           "   between the in-memory records (EV.Model.Pset) and the slots of the generic wire model. -/",
+           "import EV.Model.PsetCodec", "namespace EV.PsetWire", "open EV EV.Codec", "",
+           "/-- `KeySource` ⇄ its value bytes (fingerprint, then little-endian `u32`s) -/",
+           "def encKeySource (k : KeySource) : Bytes := k.fp ++ k.path.flatMap (leBytes 4)",
+           "def chunk4 : Nat → Bytes → List Bytes",
+           "  | 0, _ => []",
+           "  | n+1, bs => bs.take 4 :: chunk4 n (bs.drop 4)",
+           "def keySourceOf (b : Bytes) : KeySource := ⟨b.take 4, (chunk4 ((b.length - 4) / 4) (b.drop 4)).map leNat⟩",
+           "/-- the number held by a stored count (`VarInt(n).serialize()`) -/",
+           "def countOf (b : Bytes) : Nat := match varint b with | .ok (n, _) => n | _ => 0", "",
+           wire_table("globalTable", WIRE_GLOBAL), "", wire_table("inputTable", WIRE_INPUT), "", wire_table("outputTable", WIRE_OUTPUT), "",
+           wire_shape("globalShape", WIRE_GLOBAL), "", wire_shape("inputShape", WIRE_INPUT), "", wire_shape("outputShape", WIRE_OUTPUT), "",
+           "/-- the codecs chosen in the tables above, by name (same generator rows) -/",
+           wire_codec_names("inputCodecNames", WIRE_INPUT), "", wire_codec_names("outputCodecNames", WIRE_OUTPUT), "",
+           "end EV.PsetWire", "", "namespace EV", "open EV.PsetWire EV.Codec", "",
+           wire_conv("PsetGlobal", WIRE_GLOBAL, GLOBAL_KINDS), "", wire_conv("PsetInput", WIRE_INPUT, kin), "",
+           wire_conv("PsetOutput", WIRE_OUTPUT, kout), "", "end EV"]
+    return "\n".join(out)
+
+
+# ---------------------------------------------------------------------------------------------------
+# C07: record <-> slots proofs (lean/EV/Proofs/PsetWireRec.lean)
+def codec_len_lemma(codec):
+    return {"u32": "cLen_len", "u64": "cLen_len", "u8": "cLen_len", "b32": "cLen_len", "height": "cHeight_len", "time": "cTime_len"}[codec]
+
+def wire_rec(sname, tname, rows, kinds):
+    n = len(rows)
+    o = []
+    # Bounds
+    o.append("/-- widths the Rust types of the fields guarantee (integers within their width, witness stacks within")
+    o.append("    the allocation limits of `Vec<Vec<u8>>`, key sources with a 4-byte fingerprint and `u32` children) -/")
+    o.append("structure %s.Bounds (x : %s) : Prop where" % (sname, sname))
+    bfields = []
+    for r in rows:
+        f = r[0]; c = camel(f); k = kinds[f]
+        if k.startswith("on"):
+            o.append("  %s : ∀ n, x.%s = some n → n < 256 ^ %s" % (c, c, k[2:])); bfields.append((f, "on"))
+        elif k == "ol":
+            o.append("  %s : ∀ l, x.%s = some l → WfStack l" % (c, c)); bfields.append((f, "ol"))
+        elif k == "cnt":
+            o.append("  %s : x.%s < 2 ^ 64" % (c, c)); bfields.append((f, "cnt"))
+        elif k == "xpub":
+            o.append("  %s : ∀ kv ∈ x.%s, WfKeySource kv.2" % (c, c)); bfields.append((f, "xpub"))
+        elif k.startswith("n"):
+            o.append("  %s : x.%s < 256 ^ %s" % (c, c, k[1:])); bfields.append((f, "n"))
+    o.append("")
+    # R1
+    o.append("theorem %s.ofSlots_toSlots (x : %s) (hb : x.Bounds) : %s.ofSlots x.toSlots = some x := by" % (sname, sname, sname))
+    rules = ["%s.toSlots" % sname, "%s.ofSlots" % sname, "toOpt_ofOpt", "toKeys_ofKeys", "Option.getD_some"]
+    for (f, bk) in bfields:
+        c = camel(f)
+        if bk == "on": rules.append("toOptN_ofOptN _ _ hb.%s" % c)
+        elif bk == "ol": rules.append("toOptL_ofOptL _ hb.%s" % c)
+        elif bk == "cnt": rules.append("countOf_encVarint _ hb.%s" % c)
+        elif bk == "xpub": rules.append("xpub_there _ hb.%s" % c)
+        elif bk == "n": rules.append("toOptN_ofOptN_some _ _ hb.%s" % c)
+    o.append("  simp only [%s]" % ", ".join(rules))
+    o.append("")
+    # R2
+    mand = [(i, r[0]) for i, r in enumerate(rows) if r[3] == "mand"]
+    hyps = " ".join("(hm%d : slotMissing st %d = false)" % (i, i) for i, f in mand)
+    o.append("theorem %s.toSlots_ofSlots (T : List Field) (W : WirePrims) (st : List Slot) (x : %s)" % (sname, sname))
+    o.append("    (hz : WfZip T (%s W) st) %s (h : %s.ofSlots st = some x) :" % (tname, hyps, sname))
+    o.append("    x.toSlots = st ∧ x.Bounds := by")
+    o.append("  unfold %s at hz" % tname)
+    pat = "_ | ⟨s%d, _ | ⟨sx, rest⟩⟩" % (n - 1)
+    for i in range(n - 2, -1, -1):
+        pat = "_ | ⟨s%d, %s⟩" % (i, pat)
+    o.append("  rcases st with %s" % pat)
+    o.append("  all_goals try (simp only [WfZip, and_false] at hz)")
+    o.append("  obtain ⟨%s, _⟩ := hz" % ", ".join("h%d" % i for i in range(n)))
+    o.append("  simp only [%s.ofSlots, Option.some.injEq] at h" % sname)
+    o.append("  subst h")
+    for i, f in mand:
+        o.append("  have hne%d : s%d ≠ [] := not_missing_of hm%d rfl" % (i, i, i))
+    # facts per field
+    rw = []
+    bproofs = {}
+    for i, r in enumerate(rows):
+        (f, tk, cn, kind, vk, codec, lt) = r
+        k = kinds[f]
+        shape = "(optLast_shape h%d)" % i if kind == "optLast" else "(opt_shape h%d)" % i
+        val = "(optLast_val h%d)" % i if kind == "optLast" else "(opt_val h%d)" % i
+        if k == "ob":
+            rw.append("ofOpt_toOpt _ %s" % shape)
+        elif k.startswith("on"):
+            o.append("  have c%d := ofOptN_toOptN %s s%d %s (fun kv hkv => %s (%s kv hkv))" % (i, k[2:], i, shape, codec_len_lemma(codec), val))
+            rw.append("c%d.1" % i); bproofs[f] = "c%d.2" % i
+        elif k == "ol":
+            o.append("  have c%d := ofOptL_toOptL s%d %s (fun kv hkv => stack_ok (%s kv hkv))" % (i, i, shape, val))
+            rw.append("c%d.1" % i); bproofs[f] = "c%d.2" % i
+        elif k == "b":
+            rw.append("ofOpt_mand _ %s hne%d" % (shape, i))
+        elif k == "cnt":
+            o.append("  have c%d := ofOpt_count s%d %s %s hne%d" % (i, i, shape, val, i))
+            rw.append("c%d.1" % i); bproofs[f] = "c%d.2" % i
+        elif k == "xpub":
+            o.append("  have c%d := xpub_back s%d (fun kv hkv => ks_ok (map_val h%d kv hkv))" % (i, i, i))
+            rw.append("c%d.1" % i); bproofs[f] = "c%d.2" % i
+        elif k == "keys":
+            rw.append("keys_back _ (keyList_val h%d)" % i)
+        elif k == "kv":
+            pass
+        elif k.startswith("n"):
+            o.append("  have c%d := ofOptN_mand %s s%d %s (fun kv hkv => %s (%s kv hkv)) hne%d" % (i, k[1:], i, shape, codec_len_lemma(codec), val, i))
+            rw.append("c%d.1" % i); bproofs[f] = "c%d.2" % i
+        else:
+            raise ValueError(k)
+    o.append("  refine ⟨?_, ?_⟩")
+    o.append("  · simp only [%s.toSlots]" % sname)
+    o.append("    rw [%s]" % ", ".join(rw))
+    o.append("  · exact {")
+    o.append(",\n".join("      %s := %s" % (camel(f), bproofs[f]) for (f, bk) in bfields) + " }")
+    return "\n".join(o)
+
+def lean_wire_proofs():
+    kin = dict((n, k) for (n, k, m) in INPUT)
+    kout = dict((n, k) for (n, k, m) in OUTPUT)
+    out = ["/- GENERATED by `python3 tools/gen_pset_fields.py lean-wire-proofs` — do not edit by hand.",
+           "   For each of the three records: the widths the Rust field types guarantee (`Bounds`), and the two",
+           "   directions of the record ⇄ slots conversion (`ofSlots_toSlots`, `toSlots_ofSlots`). -/",
+           "import EV.Proofs.PsetWireConv", "namespace EV", "open EV.PsetWire EV.Codec EV.Proofs.PsetWireMap EV.Proofs.PsetWireConv", "",
+           wire_rec("PsetGlobal", "globalTable", WIRE_GLOBAL, GLOBAL_KINDS), "",
+           wire_rec("PsetOutput", "outputTable", WIRE_OUTPUT, kout), "",
+           wire_rec("PsetInput", "inputTable", WIRE_INPUT, kin), "", "end EV"]
+    return "\n".join(out)
+
 if __name__ == "__main__":
     what = sys.argv[1]
     if what == "lean-struct":
@@ -306,6 +622,10 @@ if __name__ == "__main__":
         print(tbl("input", INPUT)); print()
         print(tbl("output", OUTPUT)); print()
         print("end EV.PsetFieldTable")
+    elif what == "lean-wire-proofs":
+        print(lean_wire_proofs())
+    elif what == "lean-wire":
+        print(lean_wire())
     elif what == "rust":
         print(rust(INPUT, RUST_IN, "input", "Input")); print()
         print(rust(OUTPUT, RUST_OUT, "output", "Output"))
